@@ -468,8 +468,8 @@ Fixpoint apply_trcls (cs : list tcell) (t : table) (key : N)
    card stands for surface n mod 1000 as transformed by the TRCL of cell
    n / 1000; it gets an entry of its own (appended; the boundary flag goes
    with it) before anything else happens.  The loop runs over a Python set:
-   ascending order is assumed (the correspondence only runs decks where the
-   two orders agree). *)
+   the order of the walk is the parameter [ids] (the correspondence feeds the
+   order CPython used; no theorem depends on it). *)
 Fixpoint find_cell (i : N) (cs : list tcell) : option tcell :=
   match cs with
   | [] => None
@@ -507,24 +507,34 @@ Fixpoint implicit_pass (cs : list tcell) (ids : list N) (t : table) : res table 
 Definition implicit_ids (cs : list tcell) : list N :=
   sort_uniq (flat_map (fun c => map (fun l => Z.abs_N (l_z l)) (tc_lits c)) cs).
 
-(* the surface dictionary and the cells once every copy has been made *)
-Definition expand_table (cs : list tcell) (t : table) : res (list (bool * cell) * table) :=
-  match implicit_pass cs (implicit_ids cs) t with
+(* the surface dictionary and the cells once every copy has been made; [ids]
+   is the order in which the set of implicit surfaces is walked *)
+Definition expand_table_with (ids : list N) (cs : list tcell) (t : table)
+  : res (list (bool * cell) * table) :=
+  match implicit_pass cs ids t with
   | Err e => Err e
   | Ok [] => Err EValue                  (* max() of an empty dictionary *)
   | Ok t1 => apply_trcls cs t1 (N.succ (max_key t1))
   end.
 
+Definition expand_table (cs : list tcell) (t : table) : res (list (bool * cell) * table) :=
+  expand_table_with (implicit_ids cs) cs t.
+
 Definition converted (cells : list (bool * cell)) : list cell :=
   map snd (filter fst cells).
 
 (* free_surf_key = max key + 1 (max() of an empty dictionary is a ValueError) *)
-Definition run_t (cfg : config) (cards : list scard) (tcells : list tcell) : res output :=
+Definition run_t_with (ids : list N) (cfg : config) (cards : list scard) (tcells : list tcell)
+  : res output :=
   match parse_cards cards [] with
   | Err e => Err e
   | Ok t =>
-      match expand_table tcells t with
+      match expand_table_with ids tcells t with
       | Err e => Err e
       | Ok (cells, t') => finish cfg t' (converted cells)
       end
   end.
+
+(* ascending walk *)
+Definition run_t (cfg : config) (cards : list scard) (tcells : list tcell) : res output :=
+  run_t_with (implicit_ids tcells) cfg cards tcells.
